@@ -6,6 +6,7 @@ mod util;
 mod export;
 mod progs;
 mod c08;
+mod c09;
 mod c13;
 mod c15;
 mod c05;
@@ -78,6 +79,7 @@ fn main() {
             let mut em = Emitter::new();
             match prop {
                 "C08" => c08::generate(&mut em, seed, thorough),
+                "C09" => c09::generate(&mut em, seed, thorough),
                 "C13" => c13::generate(&mut em, seed, thorough),
                 "C15" => c15::generate(&mut em, seed, thorough),
                 "C05" => c05::generate(&mut em, seed, thorough),
